@@ -2132,7 +2132,7 @@ class Cache:
         select_policy = EVICTION_POLICY[self.eviction_policy]['cull']
 
         if select_policy is None:
-            return 0
+            return count
 
         select_filename = select_policy.format(fields='filename', now=now)
 
